@@ -118,7 +118,13 @@ let lookup (g : string) (r : float req) : tape_entry * string =
       (* generators in equal states (deep copies) may have answered the same request kind with
          different parameters: pick the recorded alternative whose parameters match *)
       let ok e = List.length e.params = List.length params && List.for_all2 close e.params params in
-      (match List.find_opt ok alts with
+      (* among the acceptable alternatives take the one nearest in relative terms (parameters of very different
+         magnitudes, e.g. a covariance alpha^2*A_inv with alpha = 1e-9, are all "close" in absolute terms) *)
+      let rel a b = if a = b then 0.0 else Float.abs (a -. b) /. (Float.max (Float.abs a) (Float.abs b)) in
+      let dist e = List.fold_left2 (fun acc a b -> Float.max acc (rel a b)) 0.0 e.params params in
+      let best = List.fold_left (fun acc e -> if not (ok e) then acc else
+                                   match acc with None -> Some e | Some b -> if dist e < dist b then Some e else acc) None alts in
+      (match best with
        | Some e -> (e, key)
        | None ->
            let e = List.hd alts in
